@@ -39,6 +39,8 @@ where
     let mut header = [0u8; SNA_HEADER_SIZE];
     asset.read_exact(&mut header)?;
 
+    // SNA does not store halt, EI and prefix state, execution starts from the clean instruction
+    emulator.cpu.reset_control_state();
     // i-reg
     emulator.cpu.regs.set_i(header[0]);
     // alt-regs
